@@ -310,8 +310,8 @@ theorem getLast?_of_forall_eq {α} {l : List α} {w : α} (hall : ∀ x ∈ l, x
   | none => exact absurd (List.getLast?_eq_none_iff.1 h) hne
   | some x => rw [hall x (getLast?_mem h)]
 
-theorem lastIndex_some {keys : List Nat} {k i : Nat} (h : lastIndex keys k = some i) :
-    keys[i]? = some k := by
+theorem lastIndex_some {keys : List (Nat × Nat)} {k : Nat × Nat} {i : Nat}
+    (h : lastIndex keys k = some i) : keys[i]? = some k := by
   unfold lastIndex at h
   cases hl : (keys.zipIdx.filter (fun ki => ki.1 = k)).getLast? with
   | none => simp [hl] at h
@@ -323,7 +323,8 @@ theorem lastIndex_some {keys : List Nat} {k i : Nat} (h : lastIndex keys k = som
     have h2 : x.1 = k := by simpa using hx.2
     rw [← h, h1, h2]
 
-theorem lastIndex_unique {keys : List Nat} {k i : Nat} (huniq : ∀ j, keys[j]? = some k → j = i)
+theorem lastIndex_unique {keys : List (Nat × Nat)} {k : Nat × Nat} {i : Nat}
+    (huniq : ∀ j, keys[j]? = some k → j = i)
     (hi : keys[i]? = some k) : lastIndex keys k = some i := by
   unfold lastIndex
   have hmem : (k, i) ∈ keys.zipIdx.filter (fun ki => ki.1 = k) := by
@@ -335,8 +336,10 @@ theorem lastIndex_unique {keys : List Nat} {k i : Nat} (huniq : ∀ j, keys[j]? 
     have h1 := List.mem_zipIdx_iff_getElem?.1 hx.1
     have h2 : x.1 = k := by simpa using hx.2
     rw [h2] at h1
-    have := huniq x.2 h1
-    cases x; simp_all
+    have h3 := huniq x.2 h1
+    obtain ⟨x1, x2⟩ := x
+    simp only at h2 h3
+    rw [h2, h3]
   rw [getLast?_of_forall_eq hall (List.ne_nil_of_mem hmem)]
   rfl
 
@@ -344,29 +347,33 @@ theorem genDb_getElem? (E : Env) (orig : Tree) (i : Nat) :
     (genDb E orig)[i]? = orig[i]?.map (rowOf E) := by
   simp [genDb]
 
-/-- a recognised content is a recorded one, as soon as its md5 collides with no other recorded
-content -/
+/-- the pair of hashes of a generated row -/
+theorem genDb_keys_getElem? (E : Env) (orig : Tree) (i : Nat) :
+    ((genDb E orig).map (fun r => (r.md5, r.sha1)))[i]? = orig[i]?.map (fun f => E.H f.content) := by
+  rw [List.getElem?_map, genDb_getElem?]
+  cases orig[i]? with
+  | none => rfl
+  | some f => rfl
+
+/-- a recognised content is a recorded one, as soon as its pair of hashes collides with no other
+recorded content -/
 theorem recognise_some {E : Env} {orig : Tree} {c : Bytes} {r : Row}
-    (hc : ∀ f ∈ orig, (E.H f.content).1 = (E.H c).1 → f.content = c)
+    (hc : ∀ f ∈ orig, E.H f.content = E.H c → f.content = c)
     (h : recognise E (genDb E orig) c = some r) : ∃ f ∈ orig, r = rowOf E f ∧ f.content = c := by
   unfold recognise at h
-  simp only [] at h
   split at h
-  · rename_i i j hi hj
-    split at h
-    · have hk := lastIndex_some hi
-      rw [List.getElem?_map, genDb_getElem?] at hk
-      rw [genDb_getElem?] at h
-      cases ho : orig[i]? with
-      | none => simp [ho] at h
-      | some f =>
-        rw [ho] at h hk
-        simp only [Option.map_some, Option.some.injEq] at h hk
-        subst h
-        have hf : f ∈ orig := List.mem_of_getElem? ho
-        refine ⟨f, hf, rfl, hc f hf ?_⟩
-        simpa [rowOf] using hk
-    · cases h
+  · rename_i i hi
+    have hk := lastIndex_some hi
+    rw [genDb_keys_getElem?] at hk
+    rw [genDb_getElem?] at h
+    cases ho : orig[i]? with
+    | none => simp [ho] at h
+    | some f =>
+      rw [ho] at h hk
+      simp only [Option.map_some, Option.some.injEq] at h hk
+      subst h
+      have hf : f ∈ orig := List.mem_of_getElem? ho
+      exact ⟨f, hf, rfl, hc f hf hk⟩
   · cases h
 
 theorem getElem?_unique_of_nodup {α β} (key : α → β) {l : List α} (hnd : (l.map key).Nodup)
@@ -379,43 +386,30 @@ theorem getElem?_unique_of_nodup {α β} (key : α → β) {l : List α} (hnd : 
   exact ((List.getElem?_inj hlt hnd).1 this).symm
 
 /-- a recorded content is recognised as its own row, when recorded contents are distinct and
-do not collide with it -/
+their pairs of hashes do not collide with its pair -/
 theorem recognise_known {E : Env} {orig : Tree} {f : File} (hf : f ∈ orig)
     (hdistinct : (orig.map (·.content)).Nodup)
-    (hc : ∀ g ∈ orig, ((E.H g.content).1 = (E.H f.content).1 ∨ (E.H g.content).2 = (E.H f.content).2) →
-      g.content = f.content) :
+    (hc : ∀ g ∈ orig, E.H g.content = E.H f.content → g.content = f.content) :
     recognise E (genDb E orig) f.content = some (rowOf E f) := by
   obtain ⟨i, hi⟩ := List.mem_iff_getElem?.1 hf
-  have h1 : lastIndex ((genDb E orig).map (·.md5)) (E.H f.content).1 = some i := by
+  have h1 : lastIndex ((genDb E orig).map (fun r => (r.md5, r.sha1))) (E.H f.content) = some i := by
     apply lastIndex_unique
     · intro j hj
-      rw [List.getElem?_map, genDb_getElem?] at hj
+      rw [genDb_keys_getElem?] at hj
       cases ho : orig[j]? with
       | none => simp [ho] at hj
       | some g =>
         rw [ho] at hj
-        simp only [Option.map_some, Option.some.injEq, rowOf] at hj
+        simp only [Option.map_some, Option.some.injEq] at hj
         exact getElem?_unique_of_nodup (·.content) hdistinct hi ho
-          (hc g (List.mem_of_getElem? ho) (Or.inl hj))
-    · simp [List.getElem?_map, genDb_getElem?, hi, rowOf]
-  have h2 : lastIndex ((genDb E orig).map (·.sha1)) (E.H f.content).2 = some i := by
-    apply lastIndex_unique
-    · intro j hj
-      rw [List.getElem?_map, genDb_getElem?] at hj
-      cases ho : orig[j]? with
-      | none => simp [ho] at hj
-      | some g =>
-        rw [ho] at hj
-        simp only [Option.map_some, Option.some.injEq, rowOf] at hj
-        exact getElem?_unique_of_nodup (·.content) hdistinct hi ho
-          (hc g (List.mem_of_getElem? ho) (Or.inr hj))
-    · simp [List.getElem?_map, genDb_getElem?, hi, rowOf]
+          (hc g (List.mem_of_getElem? ho) hj)
+    · rw [genDb_keys_getElem?, hi]; rfl
   unfold recognise
-  simp only [h1, h2, if_true, genDb_getElem?, hi, Option.map_some]
+  simp only [h1, genDb_getElem?, hi, Option.map_some]
 
 
 theorem scrapeWrites_cons_unknown (E : Env) (orig : Tree) (scraped : List Bytes) (c : Bytes)
-    (hcoll : ∀ f ∈ orig, (E.H f.content).1 = (E.H c).1 → f.content = c)
+    (hcoll : ∀ f ∈ orig, E.H f.content = E.H c → f.content = c)
     (hc : c ∉ orig.map (·.content)) :
     scrapeWrites E (genDb E orig) (c :: scraped) = scrapeWrites E (genDb E orig) scraped := by
   have hr : recognise E (genDb E orig) c = none := by
@@ -430,7 +424,7 @@ theorem scrapeWrites_cons_unknown (E : Env) (orig : Tree) (scraped : List Bytes)
 theorem mem_scrapeWrites_path {E : Env} {orig : Tree} {scraped : List Bytes}
     (hpaths : (orig.map (·.path)).Nodup) (hdistinct : (orig.map (·.content)).Nodup)
     (hcoll : ∀ a ∈ orig.map (·.content) ++ scraped, ∀ b ∈ orig.map (·.content) ++ scraped,
-      ((E.H a).1 = (E.H b).1 ∨ (E.H a).2 = (E.H b).2) → a = b) (p : String) (w : OutFile) :
+      E.H a = E.H b → a = b) (p : String) (w : OutFile) :
     w ∈ (scrapeWrites E (genDb E orig) scraped).filter (fun w => w.path = p) ↔
       ∃ f, lookup orig p = some f ∧ f.content ∈ scraped ∧
         w = { path := p, content := f.content, mtime := f.mtime } := by
@@ -442,7 +436,7 @@ theorem mem_scrapeWrites_path {E : Env} {orig : Tree} {scraped : List Bytes}
   · rintro ⟨⟨c, hcs, r, hr, rfl⟩, hp⟩
     have hcm : c ∈ orig.map (·.content) ++ scraped := List.mem_append_right _ hcs
     obtain ⟨f, hf, rfl, rfl⟩ := recognise_some
-      (fun f hf e => hcoll _ (hmemc f hf) _ hcm (Or.inl e)) hr
+      (fun f hf e => hcoll _ (hmemc f hf) _ hcm e) hr
     simp only [rowOf] at hp
     subst hp
     exact ⟨f, lookup_of_mem_nodup hpaths hf, hcs, rfl⟩
@@ -456,7 +450,7 @@ theorem mem_scrapeWrites_path {E : Env} {orig : Tree} {scraped : List Bytes}
 theorem scrapeOutput_spec (E : Env) (orig : Tree) (scraped : List Bytes)
     (hpaths : (orig.map (·.path)).Nodup) (hdistinct : (orig.map (·.content)).Nodup)
     (hcoll : ∀ a ∈ orig.map (·.content) ++ scraped, ∀ b ∈ orig.map (·.content) ++ scraped,
-      ((E.H a).1 = (E.H b).1 ∨ (E.H a).2 = (E.H b).2) → a = b) (p : String) :
+      E.H a = E.H b → a = b) (p : String) :
     scrapeOutput E (genDb E orig) scraped p =
       match lookup orig p with
       | some f => if f.content ∈ scraped then some { path := p, content := f.content, mtime := f.mtime } else none
